@@ -5,7 +5,10 @@ cd /repo || exit 2
 git diff --quiet || { echo "/repo is dirty"; exit 2; }
 git apply "/verif/seeded/$sid/patch.diff" || exit 2
 cd /verif
+cp evidence/$prop.json /tmp/try_seed_evidence_$prop.json 2>/dev/null
 ./check "$prop" --tier "$tier" > /tmp/try_seed_out.txt 2>&1
+# the evidence file of a run against a seeded change must not replace the one of the unchanged tree
+cp /tmp/try_seed_evidence_$prop.json evidence/$prop.json 2>/dev/null
 cd /repo && git checkout -- . && git clean -fdq src tests
 echo "== $sid vs $prop: $(grep -E 'VIOLATION|ok:' /tmp/try_seed_out.txt | head -2)"
 python3 - "$prop" "$tier" <<'PY'
